@@ -68,6 +68,13 @@ impl Default for SDesc {
 }
 
 pub fn p(s: &str) -> syn::Path {
+    // paths without segments cannot be written down, only constructed
+    if s == "<empty>" {
+        return syn::Path { leading_colon: None, segments: syn::punctuated::Punctuated::new() };
+    }
+    if s == "<::empty>" {
+        return syn::Path { leading_colon: Some(Default::default()), segments: syn::punctuated::Punctuated::new() };
+    }
     // `a::B(X, Y)`: syn does not parse parenthesised arguments on arbitrary paths, build them
     if let (Some(open), true) = (s.find('('), s.trim_end().ends_with(')')) {
         let mut base: syn::Path = syn::parse_str(&s[..open]).unwrap_or_else(|e| panic!("path `{s}`: {e}"));
